@@ -8,6 +8,7 @@ included; (3) a deep structural snapshot of the object graph is unchanged; (4) a
 dump gives identical text.
 """
 import collections
+import pathlib
 
 import yaml
 import yatiml
@@ -65,6 +66,38 @@ def extra_families():
     fam.append(('inherit-sweeten-once', {'classes': B + h, 'root': ('list', ('cls', 'H0'))},
                 lambda b: [[b.classes['H0'](1), b.classes['H1'](2), b.classes['H2'](3, 4), b.classes['H3'](5)],
                            [b.classes['H3'](6, 7)], [b.classes['H1'](8, 9)]]))
+    # a subclass that inherits _yatiml_attributes() without overriding it
+    fam.append(('attributes-inherited',
+                {'classes': B + [K([('a', 'int'), ('b', 'str', 'x')], attributes=['b', 'a']),
+                                 {'name': 'K2', 'bases': ['K'], 'params': [('a', 'int'), ('b', 'str', 'x')]}], 'root': ('list', ('cls', 'K'))},
+                lambda b: [[b.classes['K2'](1), b.classes['K'](2, 'y'), b.classes['K2'](3, 'z')]]))
+    # the LAST leaf of an object is not a plain scalar (enum member, path, string-like, empty collection) and the same
+    # leaf object occurs again later in the document
+    leaf = [{'name': 'L', 'params': [('n', 'int'), ('e', ('cls', 'E'))]}, {'name': 'Lp', 'params': [('n', 'int'), ('p', 'path')]},
+            {'name': 'Ls', 'params': [('n', 'int'), ('s', ('cls', 'S'))]}, {'name': 'Ll', 'params': [('n', 'int'), ('l', ('list', 'int'))]},
+            {'name': 'H', 'params': [('a', 'any'), ('b', 'any'), ('c', 'any', None)]}]
+
+    def leaf_reuse(b):
+        e = list(b.classes['E'])[0]
+        p = pathlib.Path('a/b')
+        s_ = b.classes['S']('str-like')
+        lst = []
+        H = b.classes['H']
+        return [H(b.classes['L'](1, e), e), H(b.classes['Lp'](1, p), p, [p]), H(b.classes['Ls'](1, s_), s_), H(b.classes['Ll'](1, lst), lst),
+                [b.classes['L'](1, e), b.classes['L'](2, e), e]]
+    fam.append(('shared-leaf-reuse', {'classes': B + leaf, 'root': 'any'}, leaf_reuse))
+    # sweeteners that write scalars of every kind through the Node helpers (the nodes they make carry their own spelling)
+    fam.append(('sweeten-writes-scalars',
+                {'classes': B + [K([('x', 'int')], hooks={'sweeten': [('set_attr_scalar', 'n', None), ('set_attr_scalar', 't', True),
+                                                                      ('set_attr_scalar', 'f', False), ('set_attr_scalar', 'r', 1.5),
+                                                                      ('set_attr_scalar', 's', 'str'), ('set_attr_scalar', 'i', 7)]})],
+                 'root': ('dict', 'str', ('cls', 'K'))},
+                lambda b: [{'k': b.classes['K'](1)}, {'a': b.classes['K'](2), 'b': b.classes['K'](3)}]))
+    for val in (None, True, 1.5, 3):
+        fam.append(('sweeten-set-value:%r' % (val,),
+                    {'classes': [{'name': 'E3', 'kind': 'enum', 'members': ['aa', 'bb'], 'hooks': {'sweeten': [('set_value', val)]}}],
+                     'root': ('list', ('cls', 'E3'))},
+                    lambda b: [list(b.classes['E3'])]))
     fam.append(('order', {'classes': B + [K([('z', 'int'), ('a', 'int'), ('m', ('dict', 'str', 'int'))], extra=True)], 'root': ('cls', 'K')},
                 lambda b: [b.classes['K'](1, 2, collections.OrderedDict([('q', 1), ('b', 2), ('a', 3)]),
                                           collections.OrderedDict([('y', 1), ('c', 2)]))]))
